@@ -471,7 +471,7 @@ def _src_kind(e, params):
         if isinstance(x, ast.Attribute) and x.attr == 'directive_comments':
             return 'header'
         if isinstance(x, ast.Name) and x.id in params:
-            return 'options'
+            return params[x.id] if isinstance(params, dict) else 'options'
     return None
 
 
@@ -511,7 +511,28 @@ def layer_writes(fn, target_is, params=()):
     return out
 
 
-def check_layers(init, visit_module):
+class _Undecided(Exception):
+    pass
+
+
+class _Aliased(dict):
+    """parameter names of the options mapping plus locals that are plain aliases of a classified mapping (`defaults = Options.get_directive_defaults()`)"""
+
+
+def _with_local_aliases(fn, params, skip):
+    env = _Aliased((p, 'options') for p in params)
+    for n in walk_no_nested(fn):
+        if isinstance(n, ast.Assign) and len(n.targets) == 1 and isinstance(n.targets[0], ast.Name) and n.targets[0].id != skip and n.targets[0].id not in env:
+            v = n.value
+            # an alias or a plain accessor call only: a copy / merge is a write of the mapping, not a name for a layer
+            if isinstance(v, (ast.Name, ast.Attribute)) or (isinstance(v, ast.Call) and not v.args and not v.keywords):
+                k = _src_kind(v, env)
+                if k:
+                    env[n.targets[0].id] = k
+    return env
+
+
+def check_layers(init, visit_module, methods=None):
     """-> (chain [(source, kind)], problems [(key, lineno, msg)])"""
     a = init.args
     params = [x.arg for x in a.args[1:]]
@@ -521,9 +542,32 @@ def check_layers(init, visit_module):
         if isinstance(n, ast.Assign) and any(is_self_attr(t) and t.attr == 'directives' for t in n.targets):
             local = n.value.id if isinstance(n.value, ast.Name) else None
             direct = n
+            v = n.value
+            if methods and isinstance(v, ast.Call) and is_self_attr(v.func) and v.func.attr in methods and v.func.attr not in ('__init__',):
+                # the mapping is built by a helper method: the layers are the writes of the mapping the helper returns
+                h = methods[v.func.attr]
+                hp = [x.arg for x in h.args.args]
+                if not any(isinstance(d, ast.Name) and d.id == 'staticmethod' for d in h.decorator_list):
+                    hp = hp[1:]
+                opt = [hp[i] for i, arg in enumerate(v.args) if i < len(hp) and isinstance(arg, ast.Name) and arg.id in params]
+                opt += [k.arg for k in v.keywords if k.arg and isinstance(k.value, ast.Name) and k.value.id in params]
+                rets = {r.value.id for r in walk_no_nested(h) if isinstance(r, ast.Return) and isinstance(r.value, ast.Name)}
+                other = [r for r in walk_no_nested(h) if isinstance(r, ast.Return) and r.value is not None and not isinstance(r.value, ast.Name)]
+                if len(rets) == 1 and not other:
+                    return _check_layers(h, visit_module, opt, rets.pop(), returned=True)
+                raise _Undecided('the module-level mapping is built by %s(), which returns %s: the order of the layers inside it is not modelled'
+                                 % (h.name, 'an expression (%s)' % _u(other[0].value) if other else 'several locals'))
+    return _check_layers(init, visit_module, params, local)
+
+
+def _check_layers(init, visit_module, params, local, returned=False):
+    params = _with_local_aliases(init, params, local)
     if local is None:
         def tgt(e):
             return is_self_attr(e) and e.attr == 'directives'
+    elif returned:
+        def tgt(e):
+            return isinstance(e, ast.Name) and e.id == local
     else:
         def tgt(e):
             return (isinstance(e, ast.Name) and e.id == local) or (is_self_attr(e) and e.attr == 'directives')
@@ -569,7 +613,11 @@ def rule_LAYER(ctx, floor=3):
     c = ix.cls('ParseTreeTransforms', 'InterpretCompilerDirectives')
     if c is None or '__init__' not in c.methods or 'visit_ModuleNode' not in c.methods:
         raise AnalysisError('InterpretCompilerDirectives.__init__ / visit_ModuleNode vanished')
-    chain, problems = check_layers(c.methods['__init__'], c.methods['visit_ModuleNode'])
+    try:
+        chain, problems = check_layers(c.methods['__init__'], c.methods['visit_ModuleNode'], c.methods)
+    except _Undecided as e:
+        r.info('not decided: ' + str(e))
+        chain, problems = [('?', 'undecided', c.methods['__init__'].lineno, w) for w in ('init', 'options', 'visit')], []
     for src, kind, line, where in chain:
         r.inst('InterpretCompilerDirectives:layer:%s:%s' % (where, src), sample='%s: %s write from %s' % (where, kind, src))
     for key, line, msg in problems:
